@@ -550,6 +550,17 @@ func families() []*family {
 	return out
 }
 
+// modelStride: the G2 reference models (affine arithmetic over Fp2 on naturals, an inversion per addition)
+// are two orders of magnitude slower than the implementations; in the thorough tier only every k-th program
+// of such a family is also sent to the model (every program is still compared between the execution modes
+// and, in C18, between the implementations).
+func modelStride(c *kc.Ctx, f *family) int {
+	if c.Thorough() && strings.Contains(f.model, "g2") {
+		return 5
+	}
+	return 1
+}
+
 func bytesEq(a, b []byte) bool { return bytes.Equal(a, b) }
 
 type kyberPoint = kyber.Point
